@@ -352,6 +352,10 @@ pub struct Exec {
     kcache_shadow: HashMap<usize, ((u8, u32, u32, u32), u32)>,
     kcache_lookups: usize,
     scan_op: Option<&'static str>,
+    /// a lazy `paths` iterator kept alive across other operations, and what it must yield
+    pit: Option<Box<dyn Iterator<Item = Vec<i32>>>>,
+    pit_expected: Vec<Vec<i32>>,
+    pit_pos: usize,
     pub raw: RawTable<(u64, u64)>,
     pub raw_kind: u64,
     raw_shadow: HashMap<u64, u64>,
@@ -404,6 +408,9 @@ impl Exec {
             kcache_shadow: HashMap::new(),
             kcache_lookups: 0,
             scan_op: None,
+            pit: None,
+            pit_expected: vec![],
+            pit_pos: 0,
             raw: RawTable::new(),
             raw_kind: 0,
             raw_shadow: HashMap::new(),
@@ -1223,6 +1230,7 @@ impl Exec {
                         Bdd::new(toks[1].parse().unwrap())
                     }
                 }));
+                self.pit = None; // (declared before the manager it borrows from is replaced)
                 self.env.clear();
                 self.live.clear();
                 self.exp.clear();
@@ -1320,8 +1328,15 @@ impl Exec {
                         self.fail(&["C06"], format!("'Storage is full' with {} free cells", free));
                     }
                 } else {
-                    // no other panic is expected on live arguments (C02, C12, …)
-                    self.fail(props, format!("unexpected panic class '{}'", c));
+                    // no other panic is expected on live arguments (C02, C12, …); with a query iterator
+                    // alive it is also the query that changed a later result (C16)
+                    if self.pit.is_some() {
+                        let mut ps = props.to_vec();
+                        ps.push("C16");
+                        self.fail(&ps, format!("unexpected panic class '{}' while a paths() iterator is alive", c));
+                    } else {
+                        self.fail(props, format!("unexpected panic class '{}'", c));
+                    }
                 }
                 self.bind_panic();
                 format!("panic {}", c)
@@ -1890,6 +1905,103 @@ impl Exec {
                         format!("panic {}", c)
                     }
                 }
+            }
+            "heldgc" => {
+                // collect_garbage while the caller still holds a guard obtained from the public
+                // `cache()` / `size_cache()` / `storage()` accessors: the collection cannot take its
+                // mutable borrow and panics; whatever it did before must leave the manager consistent
+                let which = toks[1];
+                let mut idx = vec![];
+                for t in &toks[2..] {
+                    idx.push(hh!(t));
+                }
+                let rs: Vec<Ref> = idx.iter().map(|&i| self.env[i]).collect();
+                let bdd = self.bdd.as_ref().unwrap();
+                let r = match which {
+                    "cache" => {
+                        let g = bdd.cache();
+                        let r = catch_unwind(AssertUnwindSafe(|| bdd.collect_garbage(&rs)));
+                        drop(g);
+                        r
+                    }
+                    "size" => {
+                        let g = bdd.size_cache();
+                        let r = catch_unwind(AssertUnwindSafe(|| bdd.collect_garbage(&rs)));
+                        drop(g);
+                        r
+                    }
+                    "storage" => {
+                        let g = bdd.storage();
+                        let r = catch_unwind(AssertUnwindSafe(|| bdd.collect_garbage(&rs)));
+                        drop(g);
+                        r
+                    }
+                    _ => return "bad-op".into(),
+                };
+                match r {
+                    Ok(()) => {
+                        // legitimate only with the table guard and nothing to sweep or relink
+                        let st = self.bdd().storage();
+                        let empty = (0..st.num_buckets()).all(|b| st.bucket(b) == 0);
+                        drop(st);
+                        if which != "storage" || !empty {
+                            self.fail(&["C05", "C07"], "collect_garbage returned although the caller held a guard on a cell it must borrow mutably".into());
+                        }
+                        "ok".into()
+                    }
+                    Err(p) => format!("panic {}", panic_class(p)),
+                }
+            }
+            "pathsi.open" => {
+                // a lazy iterator that stays alive while other operations run
+                let f = hh!(toks[1]);
+                let rf = self.env[f];
+                self.pit = None;
+                let eager = catch_unwind(AssertUnwindSafe(|| self.bdd().paths(rf).collect::<Vec<Vec<i32>>>()));
+                match eager {
+                    Ok(e) => {
+                        self.pit_expected = e;
+                        self.pit_pos = 0;
+                        // the iterator borrows the manager; it is dropped before the manager is replaced
+                        let b: &'static Bdd = unsafe { &*(self.bdd.as_ref().unwrap() as *const Bdd) };
+                        self.pit = Some(Box::new(b.paths(rf)));
+                        "ok".into()
+                    }
+                    Err(p) => format!("panic {}", panic_class(p)),
+                }
+            }
+            "pathsi.next" => {
+                let mut it = match self.pit.take() {
+                    Some(it) => it,
+                    None => return "closed".into(),
+                };
+                let r = catch_unwind(AssertUnwindSafe(|| it.next()));
+                match r {
+                    Ok(x) => {
+                        let want = self.pit_expected.get(self.pit_pos).cloned();
+                        if x != want {
+                            self.fail(&["C14", "C16"], format!("the paths iterator, advanced between other operations, yields {:?} as item {}, an uninterrupted iteration gave {:?}", x, self.pit_pos, want));
+                        }
+                        self.pit_pos += 1;
+                        let out = match &x {
+                            Some(p) => format!("{:?}", p),
+                            None => "end".into(),
+                        };
+                        if x.is_some() {
+                            self.pit = Some(it);
+                        }
+                        out
+                    }
+                    Err(p) => {
+                        let c = panic_class(p);
+                        self.fail(&["C14", "C16"], format!("the paths iterator panicked ({})", c));
+                        format!("panic {}", c)
+                    }
+                }
+            }
+            "pathsi.close" => {
+                self.pit = None;
+                "ok".into()
             }
             "size" => {
                 let f = hh!(toks[1]);
